@@ -86,3 +86,7 @@ Lemma m_max_src g : m_max g = M.gmax g.
 Proof. reflexivity. Qed.
 Theorem observe_src s : conv_obs (state_to_observation s) = M.observe (conv s).
 Proof. reflexivity. Qed.
+
+(* C03 on the translated step: never FIRST, MID with discount 1 or LAST with discount 0 (no truncation) -- any state, any action *)
+Lemma src_step_protocol R C T (draw : list (list bool) -> Z * Z) s a : step_ok 1 false (snd (step R C T draw s a)) = true.
+Proof. destruct (step_src R C T draw s a) as [_ E]. rewrite E. apply protocol_step. Qed.
